@@ -412,7 +412,7 @@ class Registry:
         if m is None and t0.kind == 'name' and t0.name in fe.em.p.record and op == '=':
             # implicit copy assignment whose decl is not in the dump
             l = fe.expr(args[0])
-            return deref('(%s = %s, %s)' % (l, fe.expr(args[1]), addr(l)))
+            return fe.assign(node, l, fe.expr(args[1]))
         if m is None:
             # e.g. operator==(const pair&, ...) / comparisons between iterators of mixed constness
             if len(args) == 2:
@@ -430,6 +430,8 @@ class Registry:
             if op in ('++', '--'):
                 if len(a) == 2:     # postfix: dummy int
                     return '(%s%s)' % (a[0], op)
+                if node.get('id') == fe._discard_id:
+                    return '(%s%s)' % (op, a[0])
                 return deref('(%s%s, &%s)' % (op, a[0], a[0]))
             if op == '*' and len(a) == 1:
                 return deref(a[0])
@@ -442,7 +444,7 @@ class Registry:
             return m.member(fe, fe.expr(args[0]), 'operator[]', args[1:], node)
         if op == '=' and len(args) == 2:
             l = fe.expr(args[0])
-            return deref('(%s = %s, %s)' % (l, fe.expr(args[1]), addr(l)))
+            return fe.assign(node, l, fe.expr(args[1]))
         h = self.extra_member.get((type(m).__name__, 'operator' + op))
         if h:
             return h(fe, m, args, node)
